@@ -48,6 +48,21 @@ class _Normalise(ast.NodeTransformer):
                 return ast.copy_location(ast.Compare(left=r, ops=[_FLIP_OP[type(n.ops[0])]()], comparators=[l]), n)
         return n
 
+    def visit_If(self, n):
+        n = self.generic_visit(n)
+        # `if not c: A else: B` -> `if c: B else: A`; `if a != b: A else: B` -> `if a == b: B else: A` (two-armed ifs only)
+        if n.orelse:
+            t = n.test
+            swapped = None
+            if isinstance(t, ast.UnaryOp) and isinstance(t.op, ast.Not):
+                swapped = t.operand
+            elif isinstance(t, ast.Compare) and len(t.ops) == 1 and isinstance(t.ops[0], (ast.NotEq, ast.IsNot, ast.NotIn)):
+                pos = {ast.NotEq: ast.Eq, ast.IsNot: ast.Is, ast.NotIn: ast.In}[type(t.ops[0])]()
+                swapped = ast.copy_location(ast.Compare(left=t.left, ops=[pos], comparators=t.comparators), t)
+            if swapped is not None:
+                return ast.copy_location(ast.If(test=swapped, body=n.orelse, orelse=n.body), n)
+        return n
+
     def visit_Assign(self, n):
         self.generic_visit(n)
         # `x = x <op> e`  ->  `x <op>= e`  (one spelling of an accumulator update)
@@ -100,7 +115,9 @@ class Module:
         self.path = path  # e.g. "buidl/pecc.py"
         self.text = text
         self.sha256 = hashlib.sha256(text.encode()).hexdigest()
-        self.tree = ast.fix_missing_locations(_Normalise().visit(ast.parse(text, filename=path)))
+        from .normal import normalise
+
+        self.tree = normalise(ast.parse(text, filename=path))
         self.functions = {}  # qualname -> FunctionDef
         self.classes = {}  # name -> ClassDef
         self.constants = {}  # name -> ast expr (module-level single-target assigns; last one wins)
